@@ -1,7 +1,11 @@
 // Package vatomic stands in for "sync/atomic" in rewritten repository sources.
 package vatomic
 
-import "github.com/anthdm/hollywood/zzverif/vsched"
+import (
+	"unsafe"
+
+	"github.com/anthdm/hollywood/zzverif/vsched"
+)
 
 var (
 	LoadInt32            = vsched.LoadInt32
@@ -54,4 +58,64 @@ func (x *Bool) Store(v bool) {
 	} else {
 		vsched.StoreUint32(&x.v, 0)
 	}
+}
+
+type Uint64 struct{ v uint64 }
+
+func (x *Uint64) Load() (r uint64) {
+	vsched.AtomicDo(unsafe.Pointer(x), func() (bool, uint64) { r = x.v; return false, r })
+	return
+}
+func (x *Uint64) Store(v uint64) {
+	vsched.AtomicDo(unsafe.Pointer(x), func() (bool, uint64) { x.v = v; return true, v })
+}
+func (x *Uint64) Add(d uint64) (r uint64) {
+	vsched.AtomicDo(unsafe.Pointer(x), func() (bool, uint64) { x.v += d; r = x.v; return true, r })
+	return
+}
+func (x *Uint64) CompareAndSwap(o, n uint64) (ok bool) {
+	vsched.AtomicDo(unsafe.Pointer(x), func() (bool, uint64) {
+		if x.v == o {
+			x.v, ok = n, true
+			return true, 1
+		}
+		return false, 0
+	})
+	return
+}
+
+// Pointer is atomic.Pointer[T]: every operation is one scheduling point.
+type Pointer[T any] struct{ p *T }
+
+func (x *Pointer[T]) Load() (r *T) {
+	vsched.AtomicDo(unsafe.Pointer(x), func() (bool, uint64) { r = x.p; return false, 0 })
+	return
+}
+func (x *Pointer[T]) Store(v *T) {
+	vsched.AtomicDo(unsafe.Pointer(x), func() (bool, uint64) { x.p = v; return true, 0 })
+}
+func (x *Pointer[T]) Swap(v *T) (old *T) {
+	vsched.AtomicDo(unsafe.Pointer(x), func() (bool, uint64) { old, x.p = x.p, v; return true, 0 })
+	return
+}
+func (x *Pointer[T]) CompareAndSwap(o, n *T) (ok bool) {
+	vsched.AtomicDo(unsafe.Pointer(x), func() (bool, uint64) {
+		if x.p == o {
+			x.p, ok = n, true
+			return true, 1
+		}
+		return false, 0
+	})
+	return
+}
+
+// Value is atomic.Value.
+type Value struct{ v any }
+
+func (x *Value) Load() (r any) {
+	vsched.AtomicDo(unsafe.Pointer(x), func() (bool, uint64) { r = x.v; return false, 0 })
+	return
+}
+func (x *Value) Store(v any) {
+	vsched.AtomicDo(unsafe.Pointer(x), func() (bool, uint64) { x.v = v; return true, 0 })
 }
